@@ -9,4 +9,5 @@ go build -o bin/check ./cmd/check
 ./c20rt/gen_overlay.sh
 go build -overlay build/overlay.json -o bin/check20 ./cmd/check20
 go build -race -overlay build/overlay.json -o bin/check20race ./cmd/check20race
+(V="$PWD"; cd /repo/cmd/atlas && go build -tags verif -overlay "$V/build/overlay.json" -o "$V/bin/atlas20" .)
 echo "setup ok"
